@@ -20,9 +20,8 @@ Premises (DESIGN §6), all visible as hypotheses:
 * stream theorems: additionally the recorded rows are pairwise different (each record carries its
   own id), so that "delivered once" is observable.  (Alignment matters since F18: on a logbook
   with a misaligned chapter `pop` moves `buffindex` and then raises.)
-* `header_once` is FALSE at full strength on the code as it is (finding F5): it is kept as
-  `header_once_Statement`, refuted by `header_once_fails`, and proved as `header_once_partial`
-  under the premise that the logbook is never emptied of all delivered rows after a header.
+* `header_once` holds at full strength, for every history, since the repair of F5 (the stream
+  keeps `header_streamed`); `old_rule_header_twice` records what the former rule did.
 -/
 import DeapModel.Lemmas.C18Aux
 
@@ -207,6 +206,37 @@ theorem del_exact_deep (lb : LB) (hd : DeepAligned lb) (idx : List Nat) (hn : id
   refine ⟨eraseAllDeep (sortDesc idx) ch, by rw [chapterAt_eraseAllDeep, hch]; rfl, ?_⟩
   rw [eraseAllDeep_rows, eraseAll_sortDesc idx hn]
 
+/-- Chapters with sub-chapters, any depth.  `ValidDeep sh [] ops`: every record of the history
+carries the same tree `sh` of dictionary names at every level (`Fits`: after the inherited scalar
+fields replaced equally named dictionaries); slices as in `Valid`; any integer index for `pop` /
+`del`.  Then after the whole history — records, pops, index and slice deletions, streams,
+header settings, pickling — the logbook is aligned at every depth: the chapter at EVERY path has
+as many rows as the logbook, and the rows are the surviving records in order. -/
+theorem record_deep_aligned (sh : Shape) (ops : List Op) (hv : ValidDeep sh [] ops) :
+    DeepAligned (run ops) ∧
+    (∀ path ch, chapterAt path (run ops) = some ch → ch.rows.length = (run ops).rows.length) ∧
+    (run ops).rows = (specRun ops).map Entry.scalars := by
+  have h := history_repDeep ops (lb := LB.empty) (es := []) ⟨shaped_empty sh, rfl⟩ hv
+  have hd := shaped_deep sh _ h.shaped
+  exact ⟨hd, fun path ch hch => deep_path_length path _ ch hd hch, h.rows⟩
+
+/-- the flat premise is the special case of a tree of height one -/
+theorem valid_is_validDeep (C : List Name) (e : Entry) (he : EntryOk C e) :
+    Fits [] (.mk (C.map fun c => (c, Shape.mk []))) e := by
+  rw [fits_iff]
+  have hf : effDicts [] e.dicts = e.dicts := by simp [effDicts, dictHas]
+  rw [hf]
+  refine ⟨he.1.1, ?_, ?_⟩
+  · intro c; rw [he.1.2 c]; simp [Shape.kids, List.map_map, Function.comp_def]
+  · rw [fitsAll_iff]
+    intro q hq _ shk hk
+    simp only [Shape.kids, List.mem_map] at hk
+    obtain ⟨c, _, hc⟩ := hk
+    have : shk = Shape.mk [] := by injection hc with _ h2; exact h2.symm
+    subst this
+    rw [fits_iff]
+    simp [he.2 q hq, effDicts, Shape.kids, FitsAll]
+
 /-- `removeIdx` is "the items whose position is not addressed" -/
 theorem removeIdx_spec {α : Type} (S : List Nat) (l : List α) :
     removeIdx S l = (l.zipIdx.filter fun p => decide (p.2 ∉ S)).map (·.1) := rfl
@@ -268,59 +298,45 @@ theorem stream_exactly_once (C : List Name) (ops : List Op) (hv : Valid C [] ops
 
 /-! ### The header -/
 
-/-- "the header at most once", at full strength — NOT a theorem of the code as it is (F5). -/
-def header_once_Statement : Prop := ∀ ops : List Op, headerCount ops ≤ 1
-
-/-- the witness history of F5: record a; stream; del [0]; record b; stream -/
-def f5Witness : List Op :=
-  [.record (.mk [(0, 1)] []), .stream, .delIndex 0, .record (.mk [(0, 2)] []), .stream]
-
-/-- … on which the header is delivered twice -/
-theorem header_twice_on_witness : headerCount f5Witness = 2 := by decide
-
-theorem header_once_fails : ¬ header_once_Statement := fun h =>
-  absurd (h f5Witness) (by rw [header_twice_on_witness]; decide)
-
-/-- the premise that excludes it: once a header has been delivered, `buffindex` never returns
-to 0 (see `buffindex_zero_iff`: no delivered row is left in the logbook) at any later point -/
-def NeverEmptied (ops : List Op) : Prop :=
-  ∀ k, 1 ≤ headerCount (ops.take k) → (run (ops.take k)).buffindex ≠ 0
-
-/-- Reading the stream repeatedly delivers the header at most once, as long as the logbook is
-never emptied of all delivered rows. -/
-theorem header_once_partial (ops : List Op) (hne : NeverEmptied ops) : headerCount ops ≤ 1 := by
+/-- Reading the stream repeatedly delivers the header at most once — for EVERY history (any
+records, deletions, pops, header settings, `log_header` switches, pickling in between): the
+stream remembers in `header_streamed` that it has delivered the header (repair of F5). -/
+theorem header_once (ops : List Op) : headerCount ops ≤ 1 := by
   induction ops using List.reverseRecOn with
   | nil => decide
   | append_singleton pre o ih =>
-    have htake : (pre ++ [o]).take pre.length = pre := by simp
-    have hpre : NeverEmptied pre := by
-      intro k hk
-      by_cases hkl : k ≤ pre.length
-      · have := hne k (by rw [List.take_append_of_le_length hkl]; exact hk)
-        rwa [List.take_append_of_le_length hkl] at this
-      · have hk' : pre.take k = pre := List.take_of_length_le (by omega)
-        rw [hk'] at hk ⊢
-        have := hne pre.length (by rw [htake]; exact hk)
-        rwa [htake] at this
-    have h1 := ih hpre
     rw [headerCount_snoc]
-    split
-    · next hc =>
-      simp only [Bool.and_eq_true] at hc
-      obtain ⟨hst, hh⟩ := hc
-      obtain rfl := (isStream_iff o).1 hst
-      by_cases h0 : headerCount pre = 0
-      · omega
-      · have htake' : (pre ++ [Op.stream]).take pre.length = pre := by simp
-        have hb := hne pre.length (by rw [htake']; omega)
-        rw [htake'] at hb
-        obtain ⟨_, _, _, _, e5⟩ := stream_state (run pre)
-        rw [e5] at hh
-        simp only [txt] at hh
-        split at hh
-        · simp at hh
-        · simp at hh; exact absurd hh.1 hb
-    · omega
+    by_cases h0 : headerCount pre = 0
+    · split <;> omega
+    · have hs := headerStreamed_of_count pre (by omega)
+      have : (stream (run pre)).1.header = false := by
+        rw [(stream_header (run pre)).1, hs]; rfl
+      simp [this]; exact ih
+
+/-- … and it is delivered with the first streamed row when `log_header` is on: the first stream
+of a non-empty logbook that has not streamed the header yet carries it. -/
+theorem header_first (lb : LB) (h0 : lb.buffindex = 0) (hn : 0 < lb.rows.length)
+    (hl : lb.logHeader = true) (hs : lb.headerStreamed = false) :
+    (stream lb).1.header = true ∧ (stream lb).2.headerStreamed = true := by
+  obtain ⟨h1, h2⟩ := stream_header lb
+  rw [h1, h2, h0, hl, hs]; simp [hn]
+
+/-- the witness history of the former defect F5: record a; stream; del [0]; record b; stream -/
+def f5Witness : List Op :=
+  [.record (.mk [(0, 1)] []), .stream, .delIndex 0, .record (.mk [(0, 2)] []), .stream]
+
+/-- the rule of the code BEFORE the repair (header whenever `startindex == 0 and log_header`),
+counted along a history -/
+def oldHeadersFrom : LB → List Op → Nat
+  | _, [] => 0
+  | lb, .stream :: os =>
+      (if lb.rows.length ≠ 0 ∧ lb.buffindex = 0 ∧ lb.logHeader = true then 1 else 0) +
+        oldHeadersFrom (stream lb).2 os
+  | lb, o :: os => oldHeadersFrom (step lb o).1 os
+
+/-- under the old rule the witness history got the header twice; now once -/
+theorem old_rule_header_twice :
+    oldHeadersFrom LB.empty f5Witness = 2 ∧ headerCount f5Witness = 1 := by decide
 
 /-- `buffindex = 0` says exactly that no delivered row is left in the logbook (for histories with
 pairwise different records), which is the observable form of the premise above. -/
@@ -437,27 +453,19 @@ example : (run demoOps).rows = [[(0, 1), (1, 0)], [(0, 4)]] ∧
     delivered demoOps = [[(0, 1), (1, 0)], [(0, 2), (1, 1)], [(0, 4)]] ∧ headerCount demoOps = 1 := by
   decide
 example : (recordedOf demoOps).Nodup := by decide
-example : NeverEmptied demoOps := by
-  intro k hk
-  have : k = 0 ∨ k = 1 ∨ k = 2 ∨ k = 3 ∨ k = 4 ∨ k = 5 ∨ k = 6 ∨ k = 7 ∨ k = 8 ∨ k = 9 ∨ 10 ≤ k := by
-    omega
-  rcases this with rfl | rfl | rfl | rfl | rfl | rfl | rfl | rfl | rfl | rfl | h
-  · revert hk; decide
-  · revert hk; decide
-  · revert hk; decide
-  · decide
-  · decide
-  · decide
-  · decide
-  · decide
-  · decide
-  · decide
-  · rw [List.take_of_length_le (by simpa [demoOps] using h)]; decide
 -- a logbook with chapter 10 and sub-chapter 20, aligned at every depth; `pop(-1)` and a slice
 -- deletion reach the sub-chapter
 def deepLB : LB := run [.record (.mk [(0, 1)] [(10, .mk [(5, 7)] [(20, .mk [(6, 1)] [])])]),
                         .record (.mk [(0, 2)] [(10, .mk [(5, 8)] [(20, .mk [(6, 2)] [])])]),
                         .record (.mk [(0, 3)] [(10, .mk [(5, 9)] [(20, .mk [(6, 3)] [])])])]
+/-- the tree of `deepLB`'s records: chapter 10 with sub-chapter 20 -/
+def deepShape : Shape := .mk [(10, .mk [(20, .mk [])])]
+example : ValidDeep deepShape []
+    [.record (.mk [(0, 1)] [(10, .mk [(5, 7)] [(20, .mk [(6, 1)] [])])]),
+     .record (.mk [(0, 2)] [(10, .mk [(5, 8)] [(20, .mk [(6, 2)] [])])]),
+     .pop (-1), .delSlice [0], .stream] := by
+  simp [ValidDeep, OpOkDeep, deepShape, Fits, FitsAll, effDicts, dictHas, Shape.kids, specStep,
+    pos?, position, dictUpdate, dictSet, removeIdx]
 example : DeepAligned deepLB := by
   simp [deepLB, run, runFrom, step, record, recordAux, recordDicts, modifyChapter, dictHas, dictUpdate,
     dictSet, LB.empty, DeepAligned, AllAligned]
@@ -465,7 +473,10 @@ example : ((chapterAt [10, 20] (pop (-1) deepLB).2).map LB.rows) =
       some [[(6, 1), (5, 7), (0, 1)], [(6, 2), (5, 8), (0, 2)]] ∧
     ((chapterAt [10, 20] (delSlice [2, 0] deepLB).1).map LB.rows) = some [[(6, 2), (5, 8), (0, 2)]] := by
   decide
-example : ¬ NeverEmptied f5Witness := fun h => absurd (h 3 (by decide)) (by decide)
+-- hypotheses of `header_first`
+example : (run [.record (.mk [(0, 1)] [])]).buffindex = 0 ∧ 0 < (run [.record (.mk [(0, 1)] [])]).rows.length ∧
+    (run [.record (.mk [(0, 1)] [])]).logHeader = true ∧ (run [.record (.mk [(0, 1)] [])]).headerStreamed = false := by
+  decide
 -- the scalar fields win over equal keys of the dictionary (key 1 above: 4 is replaced by 1)
 example : chapterRow 10 (.mk [(0, 2), (1, 1)] [(10, .mk [(5, 9), (1, 4)] [])]) = some [(5, 9), (1, 1), (0, 2)] := by
   decide
